@@ -301,28 +301,24 @@ def wrap_with_field(node: CSSValue, config: Config, state: WrapState=None):
     if state is None: state = WrapState()
     value = []
 
+    def field(name: str, token):
+        # NB: keep location of original token, formatter uses it to tell
+        # adjacent tokens (`a.png`) from separate ones
+        return tokens.Field(name, state.inc(), token.start, token.end)
+
     for v in node.value:
         if isinstance(v, tokens.ColorValue):
-            color_val = color(v, config.options.get('stylesheet.shortHex'))
-            value.append(tokens.Field(color_val, state.inc()))
+            value.append(field(color(v, config.options.get('stylesheet.shortHex')), v))
         elif isinstance(v, tokens.Literal):
-            value.append(tokens.Field(v.value, state.inc()))
+            value.append(field(v.value, v))
         elif isinstance(v, tokens.NumberValue):
-            value.append(tokens.Field(frac(v.value, 4) + v.unit, state.inc()))
+            value.append(field(frac(v.value, 4) + v.unit, v))
         elif isinstance(v, tokens.StringValue):
             q = '\'' if v.quote == 'single' else '"'
-            value.append(tokens.Field(''.join((q, v.value, q)), state.inc()))
+            value.append(field(''.join((q, v.value, q)), v))
         elif isinstance(v, FunctionCall):
-            value.append(tokens.Field(v.name, state.inc()))
-            value.append(tokens.Literal('('))
-
-            max_i = len(v.arguments) - 1
-            for i, arg in enumerate(v.arguments):
-                value += wrap_with_field(arg, config, state).value
-                if i != max_i:
-                    value.append(tokens.Literal(', '))
-
-            value.append(tokens.Literal(')'))
+            # Wrap arguments only: function is printed as `name(arg, arg)`
+            value.append(FunctionCall(v.name, [wrap_with_field(arg, config, state) for arg in v.arguments]))
         else:
             value.append(v)
 
